@@ -287,8 +287,14 @@ pub fn run_walk(c: &C13Walk, n: u64) -> Verdict {
     let built = c.walk_tree.build(&tree);
     let dirs: Vec<std::path::PathBuf> = built.entries.iter().filter(|e| e.kind == BuiltKind::Dir).map(|e| e.abs.clone()).collect();
     let mut roots: Vec<OsString> = root_paths(&tree, c.nroots).into_iter().map(|p| p.into_os_string()).collect();
-    for s in &c.extra_roots {
-        if !dirs.is_empty() {
+    // the first extra root is, when possible, the directory holding a symlink (so that the link is
+    // reached at two different levels), the others are arbitrary directories
+    let link_parents: Vec<std::path::PathBuf> =
+        built.entries.iter().filter(|e| e.kind == BuiltKind::Symlink).filter_map(|e| e.abs.parent().map(|p| p.to_path_buf())).filter(|p| *p != tree).collect();
+    for (i, s) in c.extra_roots.iter().enumerate() {
+        if i == 0 && !link_parents.is_empty() {
+            roots.push(link_parents[crate::util::pick(*s, link_parents.len())].clone().into_os_string());
+        } else if !dirs.is_empty() {
             roots.push(dirs[crate::util::pick(*s, dirs.len())].clone().into_os_string());
         }
     }
@@ -398,7 +404,7 @@ pub fn check(tier: Tier) -> i32 {
     replay_corpus::<C13Case, _>(&ctx, run_case);
     drive(&ctx, "main", tier.pick(480, 4000), || case_strategy(tier), run_case);
     replay_corpus::<C13Walk, _>(&ctx, run_walk);
-    drive(&ctx, "walk-order", tier.pick(1500, 20000), walk_strategy, run_walk);
+    drive(&ctx, "walk-order", tier.pick(3000, 30000), walk_strategy, run_walk);
     cleanup_process_scratch();
     ctx.finish(
         "exploration",
